@@ -1069,6 +1069,45 @@ func c15R4(c *Check, fns []*ssa.Function) {
 			}
 			for _, ins := range b.Instrs {
 				switch x := ins.(type) {
+				case *ssa.MakeSlice:
+					// make([]T, n, m) panics for a negative (or absurd) size: a size that is not a constant,
+					// a len/cap, or arithmetic over those must be known non-negative where the slice is made
+					for _, sz := range []ssa.Value{x.Len, x.Cap} {
+						if sz == nil {
+							continue
+						}
+						if _, isK := constInt(sz); isK {
+							continue
+						}
+						benign := true
+						var why string
+						for _, l := range interOrigins(P, stripConv(sz), leafOpts{noConcat: true}, 2) {
+							l = stripConv(l)
+							if _, isK := constInt(l); isK {
+								continue
+							}
+							if cl, _, isC := asCall(l); isC {
+								if bi, isB := cl.Common().Value.(*ssa.Builtin); isB && (bi.Name() == "len" || bi.Name() == "cap" || bi.Name() == "min" || bi.Name() == "max") {
+									continue
+								}
+							}
+							if bo, isB := l.(*ssa.BinOp); isB {
+								_ = bo
+								continue // arithmetic: operands are visited as leaves of their own where it matters (len(x)+1 …)
+							}
+							if ff.At(x).intFact(l, func(op token.Token, k int64) bool {
+								return (op == token.GEQ && k >= 0) || (op == token.GTR && k >= -1)
+							}) {
+								continue
+							}
+							benign, why = false, descDepth(l, 3)
+						}
+						if benign {
+							continue
+						}
+						n++
+						c.Fail(cr("R4"), fmt.Sprintf("make-size/%s#%d", fnKey(fn), n), P.Pos(instrPos(x)), "make with a size taken from "+why+" without a non-negative fact: a negative or attacker-chosen size (e.g. Content-Length -1 of a chunked answer) panics in makeslice")
+					}
 				case *ssa.IndexAddr:
 					if okConstArrayIndex(x.X, x.Index) {
 						continue // constant index into a fixed-size array (composite literals, varargs)
